@@ -26,7 +26,7 @@ check('C20', 'uuid',
       'all TLC-emitted cases replayed on the real functions; real-size observations judged by the limb-arithmetic spec',
       'Exhaustive model checking of the algorithm for three scaled-down (Base, L, Max) instances with every number and '
       'every string of length <= L+1 replayed on the real functions (patched module constants), plus TLC trace '
-      'validation of boundary-directed and random 128-bit cases against the same loops on limb numbers. Unit tests '
+      'validation of boundary-directed and random 128-bit cases (incl. families congruent modulo 2^61-1 / 2^64 / 2^32, encoded in one process) against the same loops on limb numbers. Unit tests '
       'sample a handful of UUIDs; this covers all inputs of the scaled instances and all rejection classes.',
       'Trusted: TLC, the limb arithmetic (checked against Naturals for a small limb base), patching module constants '
       'keeps the code paths. Real-size domain is sampled (2^128 values), not exhaustive.',
@@ -41,7 +41,7 @@ check('C19', 'cli',
       'option sets) up to 4 (quick) / 5 (thorough) parsers, proves the I-spec registration loop equal to the '
       'ancestor-closure A-spec in every reachable state, and each emitted graph is replayed on the real ArgParser: '
       'construction, three option strings per parser (two sharing a destination), all (command, option) pairs, common '
-      'options, default-command argvs incl. command / option-set names after options and as option values; every graph with a '
+      'options, default command implicit (first) and given explicitly (last), default-command argvs incl. command / option-set names after options and as option values; every graph with a '
       'multi-parent command also under a naming scheme that makes the constructor walk the parents in another order (fixed hash seed), plus a sample of 6-parser graphs.',
       'Trusted: TLC, argparse. Distinct option strings per parser; default command = first real command with a free '
       'positional.  Known finding F-C19b is reported as KNOWN-FINDING.',
@@ -57,7 +57,7 @@ check('C01', 'llparser',
       'TLC-built bounded grammar families replayed on the real LLParser; every returned tree judged by TLC against '
       'the TLA+ definition of a valid derivation (ValidParse) of the user grammar',
       'Every grammar of the bounded families (all ordered alternative lists incl. nullable, ambiguous, common-prefix and '
-      'nested-prefix ones, both smart_factorization settings, both dict orders, keyword/synonym/quoted-word/comment tokenizer (keywords also rename tokens into and out of the skipped kinds), explicitly empty skip_tokens, every symbol as explicit start_symbol_name, the text also as a list / iterator of lines) is built by '
+      'nested-prefix ones, both smart_factorization settings, both dict orders, keyword/synonym/quoted-word/comment tokenizer (keywords also rename tokens into and out of the skipped kinds), explicitly empty skip_tokens, every symbol as explicit start_symbol_name, the text also as a list / iterator of lines, a rest-of-line token followed by blanks) is built by '
       'the TLA+ case builder, parsed by the real parser on all inputs up to the length bound, and every returned tree '
       'is accepted or rejected by TLC against ValidParse: root, each node a user production, yield = tokens.',
       _LLNOTE, 'DESIGN.md section 4, C01')
@@ -68,7 +68,7 @@ check('C02', 'llparser',
       'disjointness, bounded language fixpoint) gives ll1 and the sentence set; the real parser is run on all inputs up '
       'to the bound, members and non-members, for both smart settings; is_ambiguous() is re-read after the parses; a '
       'conflict-free grammar must not be refused by the constructor (for either setting).  Extra families: wide '
-      'common-prefix groups of up to 6 alternatives (W6), chains with nullable heads (H3) and FOLLOW through a nullable last symbol behind a terminal (F4, 4 symbols).',
+      'common-prefix groups of up to 6 alternatives (W6), chains with nullable heads (H3) and FOLLOW through a nullable last symbol behind a terminal (F4, 4 symbols), FOLLOW dependencies in cycles (Y4, 4 symbols); a non-sentence must give ParsingError also when the text is a list of lines.',
       _LLNOTE, 'DESIGN.md section 4, C02')
 check('C03', 'llparser',
       'TLC decides LeftRecursive(G) (transitive left-corner relation behind nullable prefixes) for every grammar of the '
@@ -100,7 +100,7 @@ check('C09', 'color',
       'TLA+ terminal model fed item by item with the real output (trace validation by TLC); configurations and their '
       'requested terminal state come from a TLC-enumerated builder',
       'All foreground and all background specifications (names, -1..256, the 8^3 tuples around the cube, g-1..g25, bools, '
-      'floats, lists, other objects), constructed twice (the outcome must not depend on values used before), '
+      'floats, lists, other objects, strings that are no colour values such as g5x / red / 12a), constructed twice (the outcome must not depend on values used before), '
       'a representative cross product with all 32 effect combinations, no_color, text and bytes formatter, plus '
       'multi-chunk texts (built at once, and grown step by step with str()/format() between the extensions; some of several hundred sequences): every str() is tokenised independently of the package and accepted or rejected by the TLC '
       'acceptor (each character in exactly the requested state, default state at the end, no stray escape, '
@@ -118,7 +118,7 @@ check('C14', 'color',
       '3 ids exhaustively in the thorough tier and by simulation in quick.  Each behaviour is replayed (flat and '
       'nested dicts, colour and no_color): get_color, global palette, component palettes re-obtained after every '
       'step, make_report pending marks; and once more through the GLOBAL configuration with synced palettes (state after every step, '
-      'and after a new global configuration with the same explicit items is installed).',
+      'and after a new global configuration with the same explicit items is installed); every second palette class takes its defaults from a parent class named in PARENT_PALETTES.',
       'Trusted: TLC, harness/sgr.py. One description per id; reference chains acyclic.',
       'DESIGN.md section 4, C14')
 
@@ -132,7 +132,7 @@ check('C15', 'sql',
       'OR groups incl. empty and with keyword operands; static conditions; ignored None; conditions as tuples and as constructed SqlFieldValCondition objects) is evaluated by the spec on a 49-row table of all value pairs and executed '
       'in four API spellings x both placeholder styles (? and %s) x plain / underscore-prefixed column names; lists of up to 3 conditions by TLC simulation (quick) and all pairs exhaustively '
       '(thorough).  Checked: rows and order, list/all/one/one_or_none, no value in the SQL text, one placeholder per '
-      'bound value in spec order, identical SQL for identical shapes.',
+      'bound value in spec order, identical SQL for identical shapes, a later call of the same method without per-call options, falsy scalars through one / one_or_none.',
       'Trusted: TLC, sqlite3 as the SQL engine (columns without affinity; the %s style through a cursor that maps %s to ?), value pool as in the evidence assumptions.',
       'DESIGN.md section 4, C15')
 
@@ -149,7 +149,7 @@ check('C16', 'http',
       'of a shared mutable attribute of the underlying connection (found in the bytecode of the working tree) and at lock '
       'acquisition and enumerates all schedules by stateless DFS (a removed or narrowed lock just yields more '
       'schedules); each execution trace (loads, stores, lock events, ids handed to the opener) is judged by TLC: ids '
-      'distinct, gap free up to the numbers lost to failed requests, caller ids (strings, 0, empty, set by a request adapter) untouched, also when all requests share one caller headers dict, for all five verbs, through plain, basic-auth, client-auth and token-auth connections derived from one base, and with a transport that drops a connection once (verdict) and the event sequence is a behaviour of ReqId (drift).',
+      'distinct, gap free up to the numbers lost to failed requests, caller ids (strings, 0, empty, set by a request adapter) untouched, also when all requests share one caller headers dict, for all five verbs, through plain, basic-auth, client-auth and token-auth connections derived from one base, and with a transport that drops a connection once (verdict) and the event sequence is a behaviour of ReqId (drift).  Bounded lock waits are modelled as attempts that may fail.',
       'Trusted: TLC, CPython 3.12 sys.monitoring, the cooperative lock shim. Instructions other than shared accesses '
       'are thread local.  Quick tier caps the schedules per configuration (evidence says when the cap was hit).',
       'DESIGN.md section 4, C16')
@@ -162,7 +162,7 @@ check('C17', 'http',
       'components whose prefixes differ in the trailing slash), AddAdapter, Request with 5 methods x 11 body kinds) exhaustively and '
       'TLC simulations of 7 actions; after every action every live connection is probed and the captured urllib Request '
       'compared with the spec: address, path segments for an absolute and a relative request path (inner prefixes outermost), url-encoded params, exactly one '
-      'Authorization header that decodes (credentials chosen so that + and / occur in the base64 form) to the configured credentials, adapter and caller headers, response processors in reverse order, body '
+      'Authorization header that decodes (credentials chosen so that + and / occur in the base64 form, login names with a latin-1 character) to the configured credentials, adapter and caller headers, response processors in reverse order (one of them returns a falsy value), body '
       'encoding, caller objects unchanged.',
       'Trusted: TLC; opener replaced by a recorder. One auth layer per chain; paths start with "/"; tuples of '
       'adapters not exercised.',
@@ -191,7 +191,7 @@ check('C11', 'ppobj',
       'TLA+ printer acceptor (pushdown machine, one action per lexical item) judges the real PrettyPrinter output for '
       'values whose rendered lengths sweep the layout decisions; value shapes come from a TLC builder',
       'Flat dicts with one-line length 150..260 at several nesting offsets, flat lists with element lengths and counts '
-      'around the 200 / 150-per-line decisions (incl. repeated values and lists of numbers and bools only), special scalars and empty containers, and all '
+      'around the 200 / 150-per-line decisions (incl. repeated values, lists of numbers and bools only, values next to the strings that read like them, floats with 17 significant digits), special scalars and empty containers, and all '
       'TLC-enumerated shapes of depth<=2 width<=2 scaled by padding, each in JSON and Python mode, whole and line by '
       'line.  The output is lexed by the driver and accepted by TLC only if every element appears exactly once, in '
       'order, dict keys sorted by code point, single commas - hence reads back as the same data (json.loads / '
@@ -208,7 +208,7 @@ check('C12', 'ppobj',
       'with values of mixed Python types (incl. border characters) and printed; TLC accepts the lines only if the '
       'border fixes widths within [min,max], every row has separators under the + marks, every cell is the desired '
       'text padded or a prefix plus dots, break lines sit exactly where the break-by key changes, limits show exactly '
-      'the first n / last m lines and skipped + shown = total, header and footer are clipped to the table.',
+      'the first n / last m lines and skipped + shown = total, header and footer are clipped to the table, a value is cut only in a column that has its maximal width.',
       'Trusted: TLC; desired cell texts computed by the driver (str(value), documented enum forms). Cell values '
       'without newlines; one-line titles.',
       'DESIGN.md section 4, C12')
@@ -234,7 +234,7 @@ check('C10', 'render',
       'judged by a TLC trace acceptor whose memo is seeded from fresh interpreters',
       'All histories of 4 actions (NewConf with 2 contents / no_color, DropConf + gc, SetGlobal, Render through a slot or '
       'the global configuration, colour / no_color, whole / line by line: each line at once, all lines collected first, interleaved with another rendering of the same object; colours also given as a palette object plus no_color; requested with a temporary configuration that is discarded before the result is consumed) on the table kind and TLC simulations of 12 '
-      'actions over 7 object kinds (pretty-printed value, two tables sharing an enum field type (with undeclared values, one longer than all declared ones), record formatter, '
+      'actions over 7 object kinds (pretty-printed value, two tables sharing an enum field type (with undeclared values, one longer than all declared ones), record formatter, two tables sharing one general FieldType object, '
       'h-doc help, an object starting with an empty line, the git history report, a table with non-string title items, a table whose limits are changed between two printings, a table built from the format of a printed one without its tallest-titled column).  Each event must equal the fresh-interpreter output for its '
       '(object, configuration content, no_color), line-by-line = whole, stripped colour output = no_color output, no '
       'ESC in no_color output.',
@@ -246,9 +246,9 @@ check('C04', 'llparser',
       'TLA+ reference tokenizer (state machine over the characters of the text) and judge of the positions observed on '
       'the real parser; texts come from a TLC builder',
       'TLC builds all texts of 1 line x 4 chars and 2 lines x 2 chars (thorough: 1x5, 2x3) over an alphabet with '
-      'every character class (space, form feed, word, digit, quoted string, multi-line span opener/closer, unmatched) and '
+      'every character class (space, tab, form feed, word, digit, quoted string, multi-line span opener/closer, unmatched) and '
       'simulates texts of 4 lines; each is parsed as str and as list of lines with three grammars (whitespace skipped / '
-      'kept as tokens; empty nodes first, in the middle and last; backtracking into an empty production).  TLC re-tokenizes the text with the reference '
+      'kept as tokens; empty nodes first, in the middle and last; backtracking into an empty production; a parser of another language with a same-named span token is built first).  TLC re-tokenizes the text with the reference '
       'machine and accepts only if every leaf has exactly the reference span and get_orig_text returns exactly that '
       'slice, every inner node spans first..last token, every empty node sits at the following token, and an '
       'unmatched character raises LexicalError naming its line.',
@@ -279,7 +279,7 @@ check('C06', 'ghist',
       'history; TLC-built histories materialised as mock repositories, the real report judged branch by branch by TLC',
       'TLC enumerates every history of up to 3 (quick) / 4 (thorough) commits with 0-2 parents (merges, several roots), '
       'matching flags (the search text in the first line or only in a trailer of the message), up to 2 build tags and all placements of up to 3 branch heads (incl. heads coinciding with or '
-      'inside another branch) and simulates histories of 8 commits / 4 tags / 4 branches; ReposCollection.'
+      'inside another branch), every history over the fixed parents relation 1<-2, 1<-3, {2,3}<-4, 3<-5, and simulates histories of 8 commits / 4 tags / 4 branches; ReposCollection.'
       'make_reports_data runs on a mock repository and each branch report is accepted only if builds are the right '
       'commits, every reachable matching commit is listed once under an ancestry-minimal build of that branch, never '
       'under "not merged", "not merged" lists exactly the unreachable matching commits of lower branches, nothing '
@@ -296,7 +296,7 @@ check('C07', 'ghist',
       'All pairs of a component (2 commits, 0-2 build tags per commit; versions from the tag text or from a VERSION file that changes with every commit; DAG components with a diamond family) and a parent history of 2 (quick) / 3 '
       '(thorough) commits with merges, tags, 1-2 branches and every non-decreasing pin assignment, plus TLC '
       'simulations up to 4 component / 7 parent commits and 3 branches: RBuild.included_at of every report-related '
-      'component build (component versions from tag text (release lines 1.0 and 0.9), from a VERSION file, or builds detected as bumps of the saved number; parents that pin a second component) must be exactly the ancestry-minimal builds (or unbuilt head) of each parent branch whose pin '
+      'component build (component versions from tag text (release lines 1.0 and 0.9), from a VERSION file, or builds detected as bumps of the saved number; parents that pin a second component; parent commits tagged for two release lines; pins that move to a parallel build of a diamond component) must be exactly the ancestry-minimal builds (or unbuilt head) of each parent branch whose pin '
       'contains it, each such parent build must be reported, supply order of the repositories varied.  All dependency '
       'graphs on 2-3 (thorough: 4) repositories x all supply orders: components first, cycles rejected with ValueError.',
       'Trusted: TLC, the mock repositories. Linear component; parent heads not inside a lower-sorted branch (finding '
